@@ -122,6 +122,19 @@ CHECKS["C10"] = dict(
     design_ref="DESIGN.md#c10",
 )
 
+CHECKS["C08"] = dict(
+    category="exploration",
+    text="Generated documents (path/operation-level parameters with overrides, $ref'd and nested-$ref'd parameters, path items behind "
+    "$ref, recursive schemas, security schemes, malformed entries, several body media types, Swagger 2.0 body x consumes) are loaded "
+    "from a dict, from JSON text, from hand-style YAML (unquoted 200/404, on/off/yes/no keys, ISO timestamps) and from a multi-file "
+    "layout with relative references; all 24 orders of iteration / subscript / by-id / by-reference access are exercised; every "
+    "offered operation's parameters and body alternatives are compared with an independent computation of its effective inputs, "
+    "and the YAML-loaded tree with the JSON reading.",
+    note="Only name, location, required flag and (inlined) schema of parameters are compared; remote references are out of scope.",
+    technique="runtime monitoring: reference model of effective inputs vs observed operations under all access orders and serialisations",
+    design_ref="DESIGN.md#c08",
+)
+
 NOT_APPLICABLE = {}
 
 
